@@ -10,10 +10,12 @@ import (
 	"sort"
 	"strings"
 	"testing"
+	"time"
 
 	"github.com/go-logr/logr"
 	"github.com/wrgl/wrgl/pkg/diff"
 	"github.com/wrgl/wrgl/pkg/objects"
+	"github.com/wrgl/wrgl/pkg/progress"
 	"github.com/wrgl/wrgl/pkg/verifhook"
 	"pgregory.net/rapid"
 
@@ -59,6 +61,7 @@ type IngestCase struct {
 	Yield   uint64 `json:"yield"`
 	Reps    int    `json:"reps"`
 	FailAt  int    `json:"fail_at"` // >0: the n-th store write returns an error
+	Persist bool   `json:"persist"` // every write from the n-th on fails (a full disk), not only the n-th
 }
 
 var subIngest = evid.Register("ingest-workers", runIngest)
@@ -76,6 +79,7 @@ func TestPropIngestWorkers(t *testing.T) {
 		}
 		if rapid.IntRange(0, 3).Draw(t, "inject") == 0 {
 			c.FailAt = rapid.IntRange(1, 2*c.Blocks+3).Draw(t, "failAt")
+			c.Persist = rapid.Bool().Draw(t, "persist")
 		}
 		subIngest.Check(t, c)
 	})
@@ -96,7 +100,7 @@ func runIngest(c IngestCase) (o evid.Outcome, err error) {
 		if c.FailAt > 0 {
 			db.BeforeWrite = func(op string, key []byte) error {
 				// counted under the store's own discipline: several workers write concurrently
-				if n := addInt64(&writes, 1); n == int64(c.FailAt) {
+				if n := addInt64(&writes, 1); n == int64(c.FailAt) || (c.Persist && n > int64(c.FailAt)) {
 					return injected
 				}
 				return nil
@@ -131,6 +135,9 @@ func runIngest(c IngestCase) (o evid.Outcome, err error) {
 	o.Class("blocks=%s", bucket(c.Blocks))
 	if c.FailAt > 0 {
 		o.Class("injected-error")
+		if c.Persist {
+			o.Class("persistent-error")
+		}
 	}
 	return o, nil
 }
@@ -158,6 +165,11 @@ type PipeCase struct {
 	// FailReads > 0: every read of a block index fails from the n-th on (so that several differ
 	// goroutines fail in the same merge); the merge must report the error, not hang
 	FailReads int `json:"fail_reads"`
+	// ProgUS > 0: the diff's and the merger's progress trackers run with this period (microseconds)
+	// and are consumed and stopped the way the CLI does it, StopUS microseconds after the result
+	// channel closed
+	ProgUS int `json:"prog_us"`
+	StopUS int `json:"stop_us"`
 }
 
 var subPipe = evid.Register("diff-merge", runPipe)
@@ -177,6 +189,10 @@ func TestPropDiffMerge(t *testing.T) {
 		}
 		if rapid.IntRange(0, 2).Draw(t, "failreads") == 0 {
 			c.FailReads = rapid.IntRange(1, 6).Draw(t, "failAt")
+		}
+		if rapid.IntRange(0, 1).Draw(t, "progress") == 0 {
+			c.ProgUS = rapid.SampledFrom([]int{100, 300, 1000, 3000}).Draw(t, "progUS")
+			c.StopUS = rapid.SampledFrom([]int{0, 50, 500, 4000}).Draw(t, "stopUS")
 		}
 		subPipe.Check(t, c)
 	})
@@ -205,16 +221,37 @@ func variant(base gen.Table, edits []int, del []int, val string) gen.Table {
 	return out
 }
 
-func diffEvents(db objects.Store, a, b []byte) (string, error) {
+func diffEvents(db objects.Store, a, b []byte, progUS, stopUS int) (string, error) {
 	ta, _ := objects.GetTable(db, a)
 	tb, _ := objects.GetTable(db, b)
 	ia, _ := objects.GetTableIndex(db, a)
 	ib, _ := objects.GetTableIndex(db, b)
 	errCh := make(chan error, 4)
-	ch, _ := diff.DiffTables(db, db, ta, tb, ia, ib, errCh, logr.Discard())
+	var dopts []diff.DiffOption
+	if progUS > 0 {
+		dopts = append(dopts, diff.WithProgressInterval(time.Duration(progUS)*time.Microsecond))
+	}
+	ch, pt := diff.DiffTables(db, db, ta, tb, ia, ib, errCh, logr.Discard(), dopts...)
 	var evs []string
-	for d := range ch {
-		evs = append(evs, fmt.Sprintf("%x|%x|%x|%d|%d", d.PK, d.Sum, d.OldSum, d.Offset, d.OldOffset))
+	// like collectDiffObjects: consume the tracker's events while collecting, stop it afterwards
+	var pch <-chan progress.Event
+	if progUS > 0 {
+		pch = pt.Start()
+	}
+loop:
+	for {
+		select {
+		case <-pch:
+		case d, ok := <-ch:
+			if !ok {
+				break loop
+			}
+			evs = append(evs, fmt.Sprintf("%x|%x|%x|%d|%d", d.PK, d.Sum, d.OldSum, d.Offset, d.OldOffset))
+		}
+	}
+	if progUS > 0 {
+		time.Sleep(time.Duration(stopUS) * time.Microsecond)
+		pt.Stop()
 	}
 	select {
 	case e := <-errCh:
@@ -252,6 +289,10 @@ func runPipe(c PipeCase) (o evid.Outcome, err error) {
 	}
 	as, _ := ingestx.Simple(db, a)
 	bsum, _ := ingestx.Simple(db, b)
+	popts := mergex.Opts{}
+	if c.ProgUS > 0 {
+		popts = mergex.Opts{Period: time.Duration(c.ProgUS) * time.Microsecond, Consume: true, StopDelay: time.Duration(c.StopUS) * time.Microsecond}
+	}
 	if c.FailReads > 0 {
 		var reads int64
 		db.BeforeRead = func(key []byte) error {
@@ -263,8 +304,8 @@ func runPipe(c PipeCase) (o evid.Outcome, err error) {
 			return nil
 		}
 		verifhook.SetYield(c.Yield)
-		_, derr := diffEvents(db, as, bs)
-		_, merr := mergex.Run(db, bs, [][]byte{as, bsum}, "rows")
+		_, derr := diffEvents(db, as, bs, c.ProgUS, c.StopUS)
+		_, merr := mergex.RunWith(db, bs, [][]byte{as, bsum}, "rows", popts)
 		verifhook.SetYield(0)
 		db.BeforeRead = nil
 		if derr == nil || merr == nil {
@@ -277,12 +318,12 @@ func runPipe(c PipeCase) (o evid.Outcome, err error) {
 	var firstDiff, firstMerge string
 	for rep := 0; rep < c.Reps; rep++ {
 		verifhook.SetYield(c.Yield + uint64(rep)*104729)
-		d, err := diffEvents(db, as, bs)
+		d, err := diffEvents(db, as, bs, c.ProgUS, c.StopUS)
 		if err != nil {
 			verifhook.SetYield(0)
 			return o, fmt.Errorf("diff: %v", err)
 		}
-		res, err := mergex.Run(db, bs, [][]byte{as, bsum}, "rows")
+		res, err := mergex.RunWith(db, bs, [][]byte{as, bsum}, "rows", popts)
 		verifhook.SetYield(0)
 		if err != nil {
 			return o, fmt.Errorf("merge: %v", err)
@@ -313,6 +354,9 @@ func runPipe(c PipeCase) (o evid.Outcome, err error) {
 	}
 	o.NonTrivial = c.Blocks >= 2
 	o.Class("blocks=%d", c.Blocks)
+	if c.ProgUS > 0 {
+		o.Class("progress-tracker-consumed")
+	}
 	return o, nil
 }
 
